@@ -1,8 +1,11 @@
 #!/usr/bin/env python3
-"""Independently re-verifies the sub-agents' seeded changes (/tmp/seed/Cxx/out/m*.{diff,json,_demo_test.go}) in a
+"""Usage: harvest_seeds.py [srcroot=/tmp/seed] [ks=1,2,3]
+Independently re-verifies the sub-agents' seeded changes (<srcroot>/<id>/out/m*.{diff,json,_demo_test.go}) in a
 fresh lower-case worktree each, and copies the confirmed ones to /verif/seeded/<Cxx>-m<k>/.
 Confirmed = demo passes on clean HEAD, patch applies, builds, whole pinned suite passes with the patch, demo fails with the patch."""
 import json, os, subprocess, sys, shutil, glob, concurrent.futures as cf
+SRC = sys.argv[1] if len(sys.argv) > 1 else '/tmp/seed'
+KS = [int(x) for x in (sys.argv[2] if len(sys.argv) > 2 else '1,2,3').split(',')]
 ENV = dict(os.environ, GOFLAGS='-mod=mod', GOPROXY='off', GOSUMDB='off', GOTOOLCHAIN='local')
 ENV.pop('GOWORK', None)
 def sh(cmd, cwd, timeout=900):
@@ -16,7 +19,7 @@ def suite(wt):
     return True, ''
 def one(item):
     pid, k = item
-    src = f'/tmp/seed/{pid}/out'
+    src = f'{SRC}/{pid}/out' if os.path.isdir(f'{SRC}/{pid}/out') else f'{SRC}/{pid.lower()}/out'
     meta = json.load(open(f'{src}/m{k}.json'))
     wt = f'/tmp/wt/{pid.lower()}m{k}'
     res = {'id': f'{pid}-m{k}', 'ok': False}
@@ -68,16 +71,17 @@ def one(item):
     finally:
         subprocess.run(['git', '-C', '/repo', 'worktree', 'remove', '--force', wt])
 items = []
-for d in sorted(glob.glob('/tmp/seed/C??/out')):
-    pid = d.split('/')[3]
-    if len(sys.argv) > 1 and pid not in sys.argv[1:]:
+only = sys.argv[3:]
+for d in sorted(glob.glob(SRC + '/[cC]??/out')):
+    pid = d.split('/')[-2].upper()
+    if only and pid not in only:
         continue
-    for k in (1, 2, 3):
+    for k in KS:
         if os.path.exists(f'{d}/m{k}.json') and os.path.exists(f'{d}/m{k}.diff'):
             items.append((pid, k))
 os.makedirs('/tmp/wt', exist_ok=True)
 with cf.ThreadPoolExecutor(6) as ex:
     results = list(ex.map(one, items))
-json.dump(results, open('/tmp/seed/harvest.json', 'w'), indent=1)
+json.dump(results, open(SRC + '/harvest_seeds.json', 'w'), indent=1)
 for r in results:
     print(r['id'], 'OK' if r['ok'] else 'REJECTED: ' + r.get('why', '')[:300])
